@@ -496,6 +496,8 @@ class ConstEval(object):
 
 
 STR_PURE = (
+    "partition",
+    "rpartition",
     "upper",
     "lower",
     "replace",
